@@ -1,5 +1,5 @@
 (* C01 / E4: the two-step federated execution of one entity hop equals monolithic execution. *)
-From Coq Require Import PeanoNat Lia ZifyNat ZifyN ZifyBool.
+From Coq Require Import PeanoNat Lia.
 From Gv Require Import lib.Bytes lib.Json lib.Gql lib.Exec
      C01.ProofsBase C01.ProofsFuel C01.ProofsSplit C01.ProofsSim C01.ProofsJoin C01.ProofsOverlap.
 Open Scope N_scope.
@@ -397,6 +397,14 @@ Section KeyRead.
   Qed.
 End KeyRead.
 
+Lemma two_step_arith fM g0 g2 lk f1 f2 (nn : bool) :
+  (fM + g0 + g0 + lk + 10 <= f1)%nat -> (fM + g0 + g0 + lk + 10 + g2 <= f2)%nat ->
+  let C := (fM + g0 + g0 + lk + 6)%nat in
+  (hop_fuel nn C <= f1)%nat /\ (fM <= hop_fuel nn C)%nat /\ (g0 <= C)%nat /\ (g0 + g0 <= C)%nat /\
+  (lk + 2 <= C)%nat /\ (g0 + (lk + 2) <= C)%nat /\ (4 <= C)%nat /\ (C + g2 + 3 <= f2)%nat /\
+  (g2 <= C + g2)%nat /\ (C <= C + g2)%nat /\ (lk + 2 <= lk + 2)%nat.
+Proof. intros H1 H2 C. unfold hop_fuel, C. destruct nn; repeat split; lia. Qed.
+
 (* ---- E4 ---- *)
 Section TwoStep.
   Variable U : universe.
@@ -500,9 +508,9 @@ Section TwoStep.
     two_step f1 f2 = mono_hop fM.
   Proof.
     intros Hn Hf1 Hf2. unfold two_step_fuel in *.
-    set (C := (fM + g0 + g0 + length ks + 6)%nat).
-    assert (HC1 : (hop_fuel nn C <= f1)%nat) by (unfold hop_fuel; destruct nn; lia).
-    assert (HCM : (fM <= hop_fuel nn C)%nat) by (unfold hop_fuel; destruct nn; lia).
+    destruct (two_step_arith fM g0 g2 (length ks) f1 f2 nn Hf1 Hf2)
+      as (HC1 & HCM & Hc1 & Hc2 & Hc3 & Hc4 & Hc5 & Hc6 & Hc7 & Hc8 & Hc9).
+    set (C := (fM + g0 + g0 + length ks + 6)%nat) in *. clearbody C.
     unfold mono_hop in *.
     assert (HM : exec_sels sc U frags vars Mono (hop_fuel nn C) P ovP [fld (selA ++ selB)] path =
                  exec_sels sc U frags vars Mono fM P ovP [fld (selA ++ selB)] path)
@@ -525,14 +533,14 @@ Section TwoStep.
     rewrite obj_cres_let in Hn, HR |- *. rewrite HT in Hn, HR |- *.
     set (ov := {| ov_ent := e; ov_repr := None |}) in Hn, HR |- *.
     (* flatten facts at fuel C *)
-    assert (HfA : flatten sc frags vars C T selA = FlatOk flA) by (apply flatten_mono_ok with (f := g0); [lia|exact HflA]).
-    assert (HfB : flatten sc frags vars C T selB = FlatOk flB) by (apply flatten_mono_ok with (f := g0); [lia|exact HflB]).
-    assert (HfK : flatten sc frags vars C T (key_sels ks) = FlatOk (key_sels ks)) by (apply flatten_key_sels; lia).
+    assert (HfA : flatten sc frags vars C T selA = FlatOk flA) by (apply flatten_mono_ok with (f := g0); [exact Hc1|exact HflA]).
+    assert (HfB : flatten sc frags vars C T selB = FlatOk flB) by (apply flatten_mono_ok with (f := g0); [exact Hc1|exact HflB]).
+    assert (HfK : flatten sc frags vars C T (key_sels ks) = FlatOk (key_sels ks)) by (apply flatten_key_sels; exact Hc3).
     assert (HfAB : flatten sc frags vars C T (selA ++ selB) = FlatOk (flA ++ flB)).
-    { apply flatten_mono_ok with (f := (g0 + g0)%nat); [lia|]. apply flatten_app; assumption. }
+    { apply flatten_mono_ok with (f := (g0 + g0)%nat); [exact Hc2|]. apply flatten_app; assumption. }
     assert (HfAK : flatten sc frags vars C T (selA ++ key_sels ks) = FlatOk (flA ++ key_sels ks)).
-    { apply flatten_mono_ok with (f := (g0 + (length ks + 2))%nat); [lia|]. apply flatten_app; [exact HflA|].
-      apply flatten_key_sels. lia. }
+    { apply flatten_mono_ok with (f := (g0 + (length ks + 2))%nat); [exact Hc4|]. apply flatten_app; [exact HflA|].
+      apply flatten_key_sels. exact Hc9. }
     (* the monolithic object: selA and selB split *)
     rewrite (exec_split_eq sc U frags vars Mono C T ov selA selB p' flA flB HfA HfB) in Hn |- *;
       try (rewrite HfAB; reflexivity); try exact Hdisj.
@@ -543,8 +551,9 @@ Section TwoStep.
         destruct Hx as (k & <- & _). cbn. apply orb_true_r. }
     assert (HK : exec_flat sc U frags vars Mono C T ov (new_keys flA (key_sels ks)) p' =
                  (Some (added_members e ks flA), [])).
-    { rewrite <- HT. unfold ov. apply keys_exec_flat; [exact Hkeys| |lia].
-      apply added_sels_keys. exact Hkeys. }
+    { rewrite <- HT. unfold ov.
+      apply (keys_exec_flat sc U frags vars e ks Hkeys (new_keys flA (key_sels ks)) C p');
+        [apply (added_sels_keys sc e ks Hkeys flA)|exact Hc5]. }
     rewrite HK in HR.
     rewrite (exec_sels_flat sc U frags vars Mono C T ov selA p' flA HfA) in Hn, HR |- *.
     destruct (exec_flat sc U frags vars Mono C T ov flA p') as [[la|] ea] eqn:HEA.
@@ -568,11 +577,10 @@ Section TwoStep.
     rewrite HR1. unfold step2.
     assert (HEA' : exec_flat sc U frags vars Mono C (en_type e) {| ov_ent := e; ov_repr := None |} flA p' = (Some la, ea))
       by (rewrite HT; exact HEA).
-    rewrite (repr_from_keys sc U frags vars e ks Hkeys flA la ea C p' Hunal ltac:(lia) HEA').
-    rewrite (keep_selected_members sc U frags vars e ks flA la ea C p' HEA') || idtac.
+    rewrite (repr_from_keys sc U frags vars e ks Hkeys flA la ea C p' Hunal Hc5 HEA').
     (* step 2: the entity request *)
     assert (HB2 : mono_at sc2 U frags2 (vars2 (repr_of e ks)) (C + g2) T selB e = (oB, eB)).
-    { unfold mono_at. rewrite H2. fold ov. rewrite <- HEB. apply exec_sels_fuel_mono; [lia|]. rewrite HEB. exact HneB. }
+    { unfold mono_at. rewrite H2. fold ov. rewrite <- HEB. apply exec_sels_fuel_mono; [exact Hc8|]. rewrite HEB. exact HneB. }
     rewrite (entity_join_execute_list sc2 U frags2 (C + g2) f2 (rep_vd :: vds2) T selB
                (JObj ((s_representations, JArr [repr_of e ks]) :: sup2)) root2 flB2 [repr_of e ks] [e]
                Hroot2 Hk2 Hfr2 HsB).
@@ -583,12 +591,12 @@ Section TwoStep.
       unfold merge_at.
       rewrite (keep_selected_members sc U frags vars e ks flA la ea C p' HEA').
       destruct oB as [lb|]; reflexivity.
-    - cbn [supplied_members]. apply vars2_repr.
-    - cbn [supplied_members]. apply flatten_mono_ok with (f := g2); [lia|exact HflB2].
+    - cbn [supplied_members]. exact (vars2_repr vds2 sup2 T selB (repr_of e ks)).
+    - cbn [supplied_members]. apply flatten_mono_ok with (f := g2); [exact Hc7|exact HflB2].
     - cbn [supplied_members]. constructor; [|constructor].
       split; [exact Hfind|]. split; [exact HT|]. split.
       + apply reqs_covered_agree. exact Hreq.
       + fold (vars2 (repr_of e ks)). rewrite HB2. exact HneB.
-    - lia.
+    - exact Hc6.
   Qed.
 End TwoStep.
